@@ -25,6 +25,11 @@ TABLES = [
     ('scanner_utils.eat_pair', {'inline': True}),
     ('css_matcher.scan.literal', {'inline': True}),
     ('abbreviation.tokenizer.utils.escaped', {'inline': True}),
+    ('abbreviation.convert.insert_text', {'inline': True}),
+    ('abbreviation.convert.insert_href', {'inline': True}),
+    ('abbreviation.convert.deepest_node', {'inline': True}),
+    ('abbreviation.convert.attach_repeater', {'inline': True}),
+    ('abbreviation.convert.clone_repeater', {'inline': True}),
 ]
 
 SCN_METHODS = ['scanner.Scanner.' + m for m in ('eof', 'peek', 'next', 'eat', 'eat_while', 'back_up', 'current', 'substring', 'error', '__init__')] + \
